@@ -29,6 +29,7 @@ pub struct RunStats {
     pub stub_validated: bool,
     pub stub_disagreement: Option<String>,
     pub unexpected_reference_errors: u64,
+    pub sources_named: u64,
     pub duplicate_reports: u64,
     pub rewritten_outputs: u64,
 }
@@ -42,6 +43,10 @@ pub struct Exec {
     pub probes: BTreeMap<&'static str, u64>,
     /// snapshot after a second run over the resulting state (when requested)
     pub rerun: Option<(Outcome, Snapshot, Vec<OpRec>)>,
+    /// what the first run said at error level besides the collected errors: the `log`
+    /// records of the library (in-process back ends) or the standard error stream of the
+    /// binary, with paths spelled canonically
+    pub error_logs: Vec<String>,
 }
 
 fn budget_for(entries: usize) -> u64 {
@@ -74,7 +79,12 @@ pub fn execute(
             fs.set_budget(budget_for(entries.len()));
         }
         let resources = store.resources();
+        let _ = exec::take_captured_errors();
         let outcome = exec::fresh_process(&resources, &opts);
+        let error_logs: Vec<String> = exec::take_captured_errors()
+            .into_iter()
+            .map(|(_, text)| exec::canon_text(&text, &opts))
+            .collect();
         let after = store.snapshot();
         let (log, fired) = match store.sim() {
             Some(fs) => (fs.take_log(), fs.fired()),
@@ -101,6 +111,7 @@ pub fn execute(
             fired,
             probes,
             rerun,
+            error_logs,
         }
     })
 }
@@ -129,7 +140,12 @@ fn execute_real_lib(
             return Err("cannot enter the scratch directory".to_owned());
         }
         let resources = darklua_core::Resources::from_file_system();
+        let _ = exec::take_captured_errors();
         let outcome = exec::fresh_process(&resources, &opts);
+        let error_logs: Vec<String> = exec::take_captured_errors()
+            .into_iter()
+            .map(|(_, text)| exec::canon_text(&text, &opts))
+            .collect();
         let after = tierb::snapshot(&root);
         let rerun = if rerun {
             let outcome2 = exec::fresh_process(&resources, &opts);
@@ -146,6 +162,7 @@ fn execute_real_lib(
             fired: Vec::new(),
             probes: exec::take_probes(),
             rerun,
+            error_logs,
         })
     });
     let _ = std::env::set_current_dir("/");
@@ -189,6 +206,7 @@ fn execute_real(
     } else {
         None
     };
+    let error_logs = vec![exec::canon_text(&first.stderr, opts)];
     Ok(Exec {
         outcome: first.outcome,
         before,
@@ -197,6 +215,7 @@ fn execute_real(
         fired: Vec::new(),
         probes: BTreeMap::new(),
         rerun,
+        error_logs,
     })
 }
 
@@ -776,6 +795,30 @@ pub fn check(scn: &C11Scenario, stats: &mut RunStats) -> Result<Vec<Violation>, 
             ));
         }
     } else {
+        // "reported with its path": the path of the failing *source* appears in what the
+        // run reports - the collected error or an error-level log record / the standard
+        // error stream (a failed `create_dir_all` names only the directory in the error
+        // itself; the per-file log line is what names the source then)
+        for (source, texts) in &reported {
+            if !may_fail.contains(source) {
+                continue;
+            }
+            let named = texts.iter().any(|t| mention(t, source).is_some())
+                || a.error_logs.iter().any(|t| mention(t, source).is_some());
+            if named {
+                stats.sources_named += 1;
+            } else {
+                violations.push(Violation::new(
+                    P,
+                    "report",
+                    "source-not-named",
+                    format!(
+                        "failing file `{}` is reported without its path: errors {:?}, error-level log {:?}",
+                        source, texts, a.error_logs
+                    ),
+                ));
+            }
+        }
         for f in &faulty {
             if !reported.contains_key(f) {
                 violations.push(Violation::new(
@@ -1755,6 +1798,7 @@ impl Property for C11 {
             stats.unexpected_reference_errors,
         );
         counters.insert("files_reported_more_than_once".to_owned(), stats.duplicate_reports);
+        counters.insert("failing_sources_named_in_report".to_owned(), stats.sources_named);
         counters.insert("outputs_written_more_than_once".to_owned(), stats.rewritten_outputs);
         if scn.keep_bad_in_reference {
             counters.insert("convert_require_projects".to_owned(), 1);
